@@ -251,21 +251,33 @@ def run(rep, tier, seed, keep=False):
                  '[1,2].toList().reverse()', '{a=>1, b=>2}.items().toDict($[0], $[1])', '[[1,2],[3]].selectMany($)', 'let(x=>[1,2].select($)) -> [$x]',
                  '[1,2].splitWhere($=1)', '[1,2,3].slice(2)', '[1,2].toSet().union([3].toSet())', "regex('a').searchAll('aa')", '[1,2].orderBy($).thenByDescending(-$)']
         ne = 0
+        from yaql.language import contexts as _ctxs0
+        from yaql.language import conventions as _conv0
+        own_root = yaql.create_context(context=_ctxs0.Context(convention=_conv0.CamelCaseConvention()))       # the host supplies the root context object itself
         for t2l, s2l in itertools.product((True, False), (True, False)):
-            e = eng.e[(t2l, s2l, True)]
-            for x in exprs:
-                try:
-                    v = e(x).evaluate(context=eng.ctx.create_child_context())
-                except Exception as ex:  # noqa
-                    rep.violation('C10/expression/raises', '%s (t2l=%s, s2l=%s) raises %s: %s' % (x, t2l, s2l, type(ex).__name__, str(ex)[:80]), {'expr': x})
-                    continue
-                ne += 1
-                rep.evaluations += 1
-                np_ = has_notplain(census(v))
-                c = census(v)
-                bad = np_ or (t2l and 'tuple' in repr(c)) or (s2l and "('set'" in repr(c))
-                if bad:
-                    rep.violation('C10/expression/not-plain', '%s (t2l=%s, s2l=%s) returns %r' % (x, t2l, s2l, c), {'expr': x})
+            opts = {'yaql.convertTuplesToLists': t2l, 'yaql.convertSetsToLists': s2l}
+            # an engine whose own options say the opposite: copy(options) / engine(text, options) must follow the caller's
+            base = yaql.YaqlFactory().create(options={'yaql.convertTuplesToLists': not t2l, 'yaql.convertSetsToLists': not s2l,
+                                                      'yaql.convertInputData': True, 'yaql.convertOutputData': True})
+            copied = base.copy(opts)
+            configs = [('engine created with the options', lambda x: eng.e[(t2l, s2l, True)](x), eng.ctx),
+                       ('engine.copy(options) of an engine with the opposite options', lambda x: copied(x), eng.ctx),
+                       ('engine(text, options) on an engine with the opposite options', lambda x: base(x, opts), eng.ctx),
+                       ('context built on a root context object supplied by the host', lambda x: eng.e[(t2l, s2l, True)](x), own_root)]
+            for how, parse, cx0 in configs:
+                for x in (exprs if how.startswith('engine created') else exprs[:16]):
+                    try:
+                        v = parse(x).evaluate(context=cx0.create_child_context())
+                    except Exception as ex:  # noqa
+                        rep.violation('C10/expression/raises', '%s (t2l=%s, s2l=%s; %s) raises %s: %s' % (x, t2l, s2l, how, type(ex).__name__, str(ex)[:80]), {'expr': x})
+                        continue
+                    ne += 1
+                    rep.evaluations += 1
+                    np_ = has_notplain(census(v))
+                    c = census(v)
+                    bad = np_ or (t2l and 'tuple' in repr(c)) or (s2l and "('set'" in repr(c))
+                    if bad:
+                        rep.violation('C10/expression/not-plain', '%s (t2l=%s, s2l=%s; %s) returns %r' % (x, t2l, s2l, how, c), {'expr': x})
         rep.extra['expression_results_checked'] = ne
         # ---- one parsed statement reused across contexts: a hand-assembled context without '#finalize' first, then a prepared one
         from yaql.language import contexts as _ctxs
